@@ -61,6 +61,11 @@ func (x *Exec) execInstr(fr *Frame, st *State, instr ssa.Instruction) {
 		}
 	case *ssa.Alloc:
 		fr.vals[t] = x.doAlloc(st, t.Type().Underlying().(*types.Pointer).Elem(), t.Type(), t.Comment)
+		// a source variable that lives in memory (address taken or captured by a closure): specs
+		// read it from its cell (the debug references of its reads are value snapshots)
+		if x.isDeclaredLocal(fr.fn, t.Comment) {
+			fr.namedDefs[t.Comment] = append(fr.namedDefs[t.Comment], namedDef{t.Block(), fr.vals[t], true})
+		}
 	case *ssa.FieldAddr:
 		p := x.operand(fr, st, t.X)
 		x.safetyOblige(fr, st, "nil", instr, "", nonNilTerm(p))
